@@ -39,7 +39,7 @@ fn main() {
 
 fn dispatch(toks: &[&str]) -> String {
     match toks[0] {
-        "tag_list" | "tag_parse" | "tag_cmp" | "sub" | "sub_list" | "tag_rt" => tagcases::run(toks),
+        "tag_list" | "tag_parse" | "tag_cmp" | "sub" | "sub_cmp" | "sub_list" | "tag_rt" => tagcases::run(toks),
         "cmd_build" | "cmd_args" | "cmd_list" | "escape" => cmdcases::run(toks),
         "recv" | "conn" => conncases::run(toks),
         "frame" | "resp" => framecases::run(toks),
